@@ -55,6 +55,16 @@ def spy_pruning(log):
 READ_APIS = ["scan", "scan_par2", "batches1", "batches2", "batches_big", "iter_records"]
 
 
+def setup_append(table, rows, **kw):
+    """append_records as a SET-UP step of a check about something else (see common.SetupRejected)."""
+    from .common import SetupRejected
+
+    try:
+        return table.append_records(rows, **kw)
+    except Exception as e:
+        raise SetupRejected(f"{type(e).__name__}: {e}") from e
+
+
 def run_read(table, api, flt=None, columns=None, verify=None):
     """Run one read API and return the list of row dicts."""
     kw = {"filter": flt, "columns": columns, "verify_checksums": verify}
